@@ -196,6 +196,25 @@ pub fn for_each_string(run: &Run, f: &F, pool: &rayon::ThreadPool, visit: &(dyn 
     let g3 = st::g3(f, &sigma);
     run.count(&format!("g3_strings_{}", f.name), g3.len() as u64);
     pool.install(|| g3.par_iter().for_each(|s| visit(s)));
+    let g7 = st::g7_nested_empty(f);
+    run.count(&format!("g7_nested_empty_strings_{}", f.name), g7.len() as u64);
+    pool.install(|| g7.par_iter().for_each(|s| visit(s)));
+    // G8: the well-formed strings themselves - what the reference formatter writes for every value of the
+    // quick term universe and a cover of the sentence / task product (written from the recipe, so shapes a
+    // constructor would rewrite are present as written)
+    {
+        let mut vals: Vec<crate::model::V> = crate::universe::u_term(f, Tier::Quick).into_iter().map(crate::model::V::term).collect();
+        vals.extend(crate::universe::u_sent_cover(f));
+        run.count(&format!("g8_well_formed_strings_{}", f.name), vals.len() as u64);
+        pool.install(|| {
+            vals.par_iter().for_each(|v| {
+                let s = crate::emit::join(&crate::emit::value(f, v), " ");
+                if s.chars().count() <= 512 {
+                    visit(&s);
+                }
+            })
+        });
+    }
     // G6: EVERY code point of a stated range in every position class of a small set of templates
     // (alone, after / before / between name characters, after an atom prefix, as the only element
     // of a set, as subject / predicate next to an unspaced copula, before a punctuation, as a
